@@ -6,14 +6,14 @@ set -e
 B=$(ls -d /root/.rustup/toolchains/nightly-x86_64-unknown-linux-gnu/lib/rustlib/*/bin | head -1)
 rm -rf /tmp/cov; mkdir -p /tmp/cov/run /tmp/cov/prof
 rsync -a --exclude target /verif/harness/ /tmp/cov/harness/
-(cd /tmp/cov/harness && RUSTFLAGS="-C instrument-coverage" CARGO_NET_OFFLINE=true cargo +nightly build --offline >/dev/null 2>&1)
+(cd /tmp/cov/harness && LLVM_PROFILE_FILE=/tmp/cov/prof/build-%p-%m.profraw RUSTFLAGS="-C instrument-coverage" CARGO_NET_OFFLINE=true cargo +nightly build --offline >/dev/null 2>&1)
 cd /tmp/cov/run
 for p in C01 C02 C03 C04 C05 C06 C07 C08 C09 C10 C11 C12 C13 C14 C15 C16 C17 C18 C19 C20; do
   n=$(python3 -c "import sys; sys.path.insert(0,'/verif/tools'); import propcfg; print(propcfg.PROPS['$p']['cases']['quick'])")
   LLVM_PROFILE_FILE=/tmp/cov/prof/h-%p-%m.profraw VERIF_PORT_LOCK=/verif/.scratch/port6881.lock \
     /tmp/cov/harness/target/debug/harness gen $p 1 $n quick >/dev/null 2>&1 || true
 done
-$B/llvm-profdata merge -sparse /tmp/cov/prof/*.profraw -o /tmp/cov/all.profdata
+$B/llvm-profdata merge -sparse /tmp/cov/prof/h-*.profraw -o /tmp/cov/all.profdata
 $B/llvm-cov report /tmp/cov/harness/target/debug/harness -instr-profile=/tmp/cov/all.profdata \
   --ignore-filename-regex='(registry|rustc|harness/src|library)' | awk 'NR>2 {printf "%-34s lines=%-5s missed=%-4s %s\n", $1, $8, $9, $10}'
 for f in $(ls /repo/src/*.rs /repo/src/*/*.rs); do
